@@ -19,7 +19,7 @@ Reading of the source
 * (round 4, for the level functions of cnvlib/segfilters.py) a table column `tbl["name"]` (optionally `.values`) is
   read elementwise as the parameter `name`; `np.zeros(n)` / `np.zeros_like(x)` is the number 0 and `pd.Series(x)` /
   `np.asarray(x)` / `np.array(x)` is `x` (elementwise reading); a masked plain assignment `x[mask] = v`, the mask
-  being a comparison (or `&` / `|` / `~` of comparisons, or a name bound to one), means "where mask holds, x
+  being a comparison (or `&` / `|` / `~` of comparisons, or a name bound to one, with or without `.values`), means "where mask holds, x
   becomes v" -- a later assignment overrides an earlier one where both masks hold, as in numpy; a comparison with a
   missing value (NaN) is outside the reading (the theorems about these functions assume the columns present).
 """
@@ -180,6 +180,8 @@ class Fn:
             return "(" + op.join(self.cond(v, env) for v in e.values) + ")"
         if isinstance(e, ast.UnaryOp) and isinstance(e.op, (ast.Not, ast.Invert)):
             return f"(¬ {self.cond(e.operand, env)})"
+        if isinstance(e, ast.Attribute) and e.attr == "values":
+            return self.cond(e.value, env)   # `mask.values`: the same mask, elementwise
         if isinstance(e, ast.BinOp) and isinstance(e.op, (ast.BitOr, ast.BitAnd)):
             op = " ∨ " if isinstance(e.op, ast.BitOr) else " ∧ "
             return "(" + self.cond(e.left, env) + op + self.cond(e.right, env) + ")"
@@ -249,7 +251,7 @@ class Fn:
                 env[t.id] = self.expr(s.value, env)
                 return self.block(rest, env)
             if isinstance(t, ast.Subscript) and isinstance(t.value, ast.Name) and t.value.id in env \
-                    and isinstance(t.slice, (ast.Compare, ast.BoolOp, ast.BinOp, ast.UnaryOp, ast.Name)):
+                    and isinstance(t.slice, (ast.Compare, ast.BoolOp, ast.BinOp, ast.UnaryOp, ast.Name, ast.Attribute)):
                 # masked plain assignment `x[mask] = v`: where the mask holds, x becomes v
                 c = self.cond(t.slice, env)
                 env = dict(env)
